@@ -69,3 +69,8 @@ claimed["C12"] = (
  "Decides: every dispatcher's local branch and the handler of the route its remote branch requests run the same Local function; client query keys = handler keys and each key reaches the Local parameter the local path feeds from the same dispatcher argument; query values are QueryEscape'd, timestamps cross as String()/ParseTimestamp; handler AppendTo sequence = client TakeFrom sequence (Header, then one element per archive of the header); not-exist protocol on both ends incl. empty-body signalling and an os.ErrNotExist PathError, with remote errors returned unwrapped. Necessary structural conditions of C12.",
  "Not decided: equality of results through real HTTP round trips, net/http behaviour, url escaping round-trip semantics beyond callee identity.",
  "DESIGN.md 5 (C12)")
+claimed["C17"] = (
+ "static effects analysis (bottom-up write summaries over the call graph with memory roots fresh/param/global), lockset check of the page cache, goroutine-body capture analysis",
+ "Decides: the three read-path roots and all module code they reach write nothing reachable from the shared handle and no global/unknown memory; every exported FileBuffer method takes its mutex first with a deferred unlock and unexported ones are reached only from those; errgroup bodies write only captured variables no sibling touches, loop bodies write only elements indexed by a per-iteration copy of the loop variable (no shared append/map/variable), the parent reads results only after Wait; handlers write neither the shared *app nor globals; package variables are stored only at initialisation. Necessary (and, under the trusted base, sufficient for data-race freedom of these paths) structural conditions of C17.",
+ "Not decided: equality of concurrent and sequential results as such; races inside the standard library or bitset (trusted); command-level goroutines other than errgroup.Go bodies.",
+ "DESIGN.md 5 (C17)")
